@@ -41,11 +41,16 @@ def main():
     meta = json.load(open(os.path.join(src, "meta.json")))
     prop = meta.get("property", sid)
     if props is None:
-        props = [prop]
+        # re-evaluation of a kept seed: the same properties as last time
+        props = sorted((meta.get("verification", {}).get("checks") or {}).keys()) or [prop]
+        if prop in props:
+            props.remove(prop)
+        props.insert(0, prop)
     demo = meta["demo"]
     pkgdir = demo["package_dir"].strip("./") or "."
     demofile = demo["file"]
     wt = "/tmp/sv-%s" % name
+    src = os.path.realpath(src)
     sh("git -C /repo worktree remove --force %s" % wt)
     rc, out = sh("git -C /repo worktree add %s HEAD" % wt)
     assert rc == 0, out
@@ -55,7 +60,7 @@ def main():
         shutil.copy(os.path.join(src, demofile), demodst)
         # the demonstration tests are named TestSeed<ID>...: build the command ourselves
         # (the agents' "run" strings contain prose and their own wrappers)
-        run = "go test -vet=off -count=1 -run 'TestSeed' %s" % ("." if pkgdir == "." else "./%s/" % pkgdir)
+        run = "go test -vet=off -count=1 -run 'Seed' %s" % ("." if pkgdir == "." else "./%s/" % pkgdir)
         runcmd = "unshare -n -- bash -c 'ip link set lo up 2>/dev/null; %s'" % run.replace("'", "'\\''")
         rc, out = sh(runcmd, cwd=wt)
         rec["steps"]["demo_passes_without_change"] = rc == 0
@@ -77,7 +82,13 @@ def main():
         # always include the core packages
         extra = "./internal/raft/ ./internal/rsm/ ./internal/logdb/ ./internal/tan/ ./internal/transport/ ./raftpb/"
         allp = " ".join(sorted(set((pk + " " + extra).split())))
-        rc, out = sh("unshare -n -- bash -c 'ip link set lo up 2>/dev/null; go test -p 1 -vet=off -count=1 -timeout 40m %s'" % allp, cwd=wt)
+        oldver = meta.get("verification", {})
+        if "--reuse-existing" in sys.argv and oldver.get("steps", {}).get("existing_tests_pass"):
+            # re-evaluation of a kept seed: the existing tests were run when the seed was first confirmed
+            rc, out = 0, ""
+            rec["existing_tests_reused_from"] = oldver.get("verified_at")
+        else:
+            rc, out = sh("unshare -n -- bash -c 'ip link set lo up 2>/dev/null; go test -p 1 -vet=off -count=1 -timeout 40m %s'" % allp, cwd=wt)
         rec["steps"]["existing_tests_pass"] = rc == 0
         rec["existing_tests_cmd"] = "go test -vet=off -count=1 " + allp
         if rc != 0:
@@ -97,11 +108,12 @@ def main():
         sh("rm -rf %s/build/seed-%s %s/work/seed-%s" % (VERIF, name, VERIF, name))
     dst = os.path.join(VERIF, "seeded", name)
     os.makedirs(dst, exist_ok=True)
-    shutil.copy(os.path.join(src, "patch.diff"), dst)
-    shutil.copy(os.path.join(src, demofile), dst)
+    if os.path.realpath(src) != os.path.realpath(dst):
+        shutil.copy(os.path.join(src, "patch.diff"), dst)
+        shutil.copy(os.path.join(src, demofile), dst)
     meta["verification"] = rec
     prev = os.path.join(dst, "meta.json")
-    if os.path.exists(prev):
+    if os.path.exists(prev) and "--fresh" not in sys.argv:
         old = json.load(open(prev))
         oldchecks = old.get("verification", {}).get("checks", {})
         oldchecks.update(rec.get("checks", {}))
